@@ -121,7 +121,9 @@ class Gen:
             ts["kind"] = ch.choice(["1", "4"])
         elif base == "character":
             ts["len"] = ch.weighted([(2, None), (4, ch.choice(["10", "5", "80"])), (2, "*" if for_arg else "20"),
-                                     (1, "len_" if False else "3")])
+                                     (1, "len_" if False else "3")] +
+                                    ([(2, ch.choice(["max(2, 3)", "2*4", "merge(3, 5, 1 < 2)", "8/2", "min(4, 6, 8)"]))]
+                                     if "len_expr" not in self.cfg.get("excl", ()) else []))
             if ch.bool(1, 8):
                 ts["kind"] = "1"
         elif base == "type":
